@@ -5,7 +5,7 @@
  *
  * Link line (tools/props/c17.py, c18.py):
  *   -Wl,--wrap=clock_gettime,--wrap=pthread_cond_wait,--wrap=pthread_cond_timedwait,--wrap=pthread_cond_signal
- *   -Wl,--wrap=getgrent_r,--wrap=setgrent,--wrap=endgrent,--wrap=getpwnam_r,--wrap=stat,--wrap=time
+ *   -Wl,--wrap=getgrent_r,--wrap=setgrent,--wrap=endgrent,--wrap=getpwnam_r,--wrap=stat,--wrap=lstat,--wrap=time
  *   -Wl,--wrap=timer_set_relative,--wrap=timer_cancel
  * timer.c runs on vtime.h's virtual clock; time() is that clock in seconds; stat("/etc/group") and the NSS calls
  * serve the script's databases (opened at setgrent(): a scan reads the version that was current then, as a scan
@@ -20,6 +20,7 @@
  *
  *   T I<interval>,<dostat> U<uid,...>|<gid,...> op...
  *   passive ops (no token):  G<db> | P<pw> | M<mtime> | M!      (formats of gids_harness.c)
+ *                            Y<mtime> the group file is a symbolic link with that mtime of its own (M = its target's) | Y-
  *                            H<j>/<acts>/<acts>/<acts>/[f<k>]    hooks T/G/E and fault of the j-th refresh that
  *                                                               starts from now on; acts '+'-separated:
  *                                                               G.. P.. M.. S c<delta ms> t<ms> A
@@ -28,6 +29,7 @@
  *   tokens:  s<id>@<now>+<ms>  c<id>=<ret>  u (gids_update returned)  f<id>@<now>
  *            o (the scan opens the databases)  r<stat called><build attempted>  hT hG hE  a<bits>
  *            `|` after every active op; at the end d<id>=<ret> (the cancel made by gids_destroy) or d-, then `.`
+ *            !stuck<k>:<s>  refresh #k was entered and never returned (s = 1 if a sentinel timer still fired)
  * Each case runs in a forked child.                                                                            */
 #define _GNU_SOURCE 1
 #if HAVE_CONFIG_H
@@ -73,9 +75,11 @@ void log_err (int status, int priority, const char *format, ...) {
 static pthread_mutex_t em = PTHREAD_MUTEX_INITIALIZER;     /* log, instances, refresh ordinal */
 static char out[1 << 20]; static size_t outn;
 static void emit (const char *fmt, ...) {                  /* caller holds em or is alone */
-    va_list ap; va_start (ap, fmt);
+    va_list ap;
+    if (outn > sizeof out - 512) return;                   /* a refresh that re-arms itself in a tight loop: enough seen */
+    va_start (ap, fmt);
     if (outn) out[outn++] = ' ';
-    outn += vsnprintf (out + outn, sizeof out - outn - 2, fmt, ap);
+    {   int n = vsnprintf (out + outn, 400, fmt, ap); outn += n < 0 ? 0 : n > 399 ? 399 : n; }
     va_end (ap);
 }
 static long now_ms (void) {
@@ -232,6 +236,18 @@ int __wrap_stat (const char *path, struct stat *st) {
     return 0;
 }
 
+/* lstat: when the group file is a symbolic link (Y op: /etc/group -> a file maintained elsewhere, replaced by rename),
+   the link's own mtime never changes; stat() above follows it to the target */
+static int f_symlink; static time_t f_lmtime;
+int __real_lstat (const char *path, struct stat *st);
+int __wrap_lstat (const char *path, struct stat *st) {
+    if (strcmp (path, GIDS_GROUP_FILE)) return __real_lstat (path, st);
+    if (!f_symlink) return __wrap_stat (path, st);
+    n_stat++;
+    memset (st, 0, sizeof *st); st->st_mtime = f_lmtime; st->st_mode = S_IFLNK | 0777;
+    return 0;
+}
+
 time_t __wrap_time (time_t *t) {
     time_t r;
     if (in_refresh) park ('T');
@@ -283,6 +299,9 @@ int __wrap_timer_cancel (long id) {
     return r;
 }
 
+static volatile int sentinel_fired;
+static void sentinel_cb (void *a) { (void) a; sentinel_fired = 1; }
+
 /* ------------------------------------------------------------------ the driver */
 static uid_t *U; static gid_t *G; static int nU, nG;
 static gids_t gids;
@@ -304,6 +323,7 @@ static void do_act (char *a) {
     case 'G': parse_db (a + 1); break;
     case 'P': parse_pw (a + 1); break;
     case 'M': if (a[1] == '!') f_stat_fail = 1; else { f_stat_fail = 0; f_mtime = (time_t) atoll (a + 1); } break;
+    case 'Y': if (a[1] == '-') f_symlink = 0; else { f_symlink = 1; f_lmtime = (time_t) atoll (a + 1); } break;
     case 'S':
         pthread_mutex_lock (&em); driver_busy = 1; pthread_mutex_unlock (&em);
         gids_update (gids);
@@ -332,7 +352,7 @@ static int run_to_rest (void) {
             if (park_point && !park_release && park_gen != seen) { point = park_point; gen = park_gen; break; }
             if (!park_point && t_waiting && !wake_pending && !(t_timed && ts_le (&t_deadline, &vnow))) break;
             __real_clock_gettime (CLOCK_REALTIME, &rt);
-            if (ts_le (&lim, &rt)) { pthread_mutex_unlock (&hm); return -1; }
+            if (ts_le (&lim, &rt)) { int stuck = in_refresh && !park_point; pthread_mutex_unlock (&hm); return stuck ? -2 : -1; }
             real_deadline (&rt, 5);
             __real_pthread_cond_timedwait (&hcv, &hm, &rt);
         }
@@ -370,7 +390,7 @@ static void run_case (char *line) {
     emit ("u");                                            /* gids_create ends with gids_update */
     while (!bad && (tok = strtok_r (NULL, " ", &save))) {
         switch (tok[0]) {
-        case 'G': case 'P': case 'M': do_act (tok); break;
+        case 'G': case 'P': case 'M': case 'Y': do_act (tok); break;
         case 'H': {
             /* H<j>/<T acts>/<G acts>/<E acts>/[f<k>] */
             struct hookrec *h; char *f[5]; int nf = 0; char *p = tok + 1;
@@ -383,7 +403,22 @@ static void run_case (char *line) {
             break; }
         case 't': case 'c': case 'S': case 'A':
             do_act (tok);
-            if (run_to_rest () < 0) { pthread_mutex_lock (&em); emit ("!norest"); pthread_mutex_unlock (&em); bad = 1; break; }
+            {   int rr = run_to_rest ();
+                if (rr == -2) {
+                    /* the callback was entered and has neither parked nor returned: the timer thread is stuck in it.
+                       What that means for every other service: a sentinel timer set for immediate expiry, the clock
+                       an hour on — nothing fires */
+                    int ord; long t0;
+                    pthread_mutex_lock (&em); ord = cur_ord; pthread_mutex_unlock (&em);
+                    t0 = now_ms ();
+                    __real_timer_set_relative (sentinel_cb, NULL, 0);
+                    set_clock_ms (t0 + 3600000L);
+                    usleep (300000);
+                    pthread_mutex_lock (&em); emit ("!stuck%d:%d", ord, sentinel_fired); pthread_mutex_unlock (&em);
+                    bad = 1; break;
+                }
+                if (rr < 0) { pthread_mutex_lock (&em); emit ("!norest"); pthread_mutex_unlock (&em); bad = 1; break; }
+            }
             pthread_mutex_lock (&em); emit ("|"); pthread_mutex_unlock (&em);
             break;
         default: emit ("?%s", tok);
